@@ -395,6 +395,9 @@ class CatalogWriter(AbstractContextManager, HandlesDataChunk):
         buffersize:
             Optional, maximum number of records to store in the internal cache
             of each patch writer.
+        expected_patches:
+            Optional, the number of patches that must receive data (patch IDs
+            ``0`` to ``expected_patches - 1``), checked when finalising.
 
     Attributes:
         cache_directory:
@@ -415,6 +418,7 @@ class CatalogWriter(AbstractContextManager, HandlesDataChunk):
         "_chunk_info",
         "cache_directory",
         "buffersize",
+        "expected_patches",
         "writers",
     )
 
@@ -425,8 +429,10 @@ class CatalogWriter(AbstractContextManager, HandlesDataChunk):
         chunk_info: DataChunkInfo,
         overwrite: bool = True,
         buffersize: int = -1,
+        expected_patches: int | None = None,
     ) -> None:
         self._chunk_info = chunk_info
+        self.expected_patches = expected_patches
         self.cache_directory = Path(cache_directory)
         cache_exists = self.cache_directory.exists()
 
@@ -522,7 +528,11 @@ class CatalogWriter(AbstractContextManager, HandlesDataChunk):
             if writer.num_processed == 0:
                 empty_patches.add(patch_id)
 
-        for patch_id in empty_patches:
+        if self.expected_patches is not None:
+            # patches that never received any data have no writer at all
+            empty_patches.update(set(range(self.expected_patches)) - self.writers.keys())
+
+        for patch_id in sorted(empty_patches):
             raise ValueError(f"patch with ID {patch_id} contains no data")
 
         patch_ids = np.fromiter(self.writers.keys(), dtype=np.int16)
@@ -568,14 +578,17 @@ def write_patches_unthreaded(
 
     """
     with reader:
+        expected_patches = None
         if patch_centers is not None:
             patch_centers = get_patch_centers(patch_centers).to_3d()
+            expected_patches = len(patch_centers)
 
         with CatalogWriter(
             cache_directory=path,
             chunk_info=reader.copy_chunk_info(drop_patch_ids=True),
             overwrite=overwrite,
             buffersize=buffersize,
+            expected_patches=expected_patches,
         ) as writer:
             chunk_iter = Indicator(reader) if progress else iter(reader)
             for chunk in chunk_iter:
@@ -661,6 +674,7 @@ if parallel.use_mpi():
         num_senders: int,
         overwrite: bool = True,
         buffersize: int = -1,
+        expected_patches: int | None = None,
     ) -> None:
         """A dedicated writer process that recieves a dictionary with patch IDs
         and patch data to write using a :obj:`CatalogWriter`, terminated when
@@ -671,6 +685,7 @@ if parallel.use_mpi():
             chunk_info=chunk_info,
             overwrite=overwrite,
             buffersize=buffersize,
+            expected_patches=expected_patches,
         ) as writer:
             while num_senders > 0:
                 patches = recv(source=MPI.ANY_SOURCE, tag=1)
@@ -744,6 +759,9 @@ if parallel.use_mpi():
                 num_senders=len(worker_config.active_ranks),
                 overwrite=overwrite,
                 buffersize=buffersize,
+                expected_patches=(
+                    None if patch_centers is None else len(patch_centers)
+                ),
             )
 
         elif rank in worker_config.active_ranks:
@@ -804,6 +822,7 @@ else:
         chunk_info: DataChunkInfo = field(kw_only=True)
         overwrite: bool = field(default=True, kw_only=True)
         buffersize: int = field(default=-1, kw_only=True)
+        expected_patches: int | None = field(default=None, kw_only=True)
 
         def __post_init__(self) -> None:
             self.process = multiprocessing.Process(target=self.task)
@@ -829,6 +848,7 @@ else:
                 overwrite=self.overwrite,
                 chunk_info=self.chunk_info,
                 buffersize=self.buffersize,
+                expected_patches=self.expected_patches,
             ) as writer:
                 while (patches := self.patch_queue.get()) is not EndOfQueue:
                     writer.process_patches(patches)
@@ -915,6 +935,9 @@ else:
                 chunk_info=reader.copy_chunk_info(drop_patch_ids=True),
                 overwrite=overwrite,
                 buffersize=buffersize,
+                expected_patches=(
+                    None if patch_centers is None else len(patch_centers)
+                ),
             ):
                 chunk_iter = Indicator(reader) if progress else iter(reader)
                 for chunk in chunk_iter:
